@@ -127,7 +127,12 @@ def argval_key(v):
     return repr(v)
 
 
+EXTRA_CACHE = [0]
+
+
 def compare_streams(d, x, fields):
+    # dis hides CACHE entries unless show_caches=True (3.11, 3.12) and has none at all from 3.13; xdis.std always yields them
+    EXTRA_CACHE[0] += max(0, sum(r["opname"] == "CACHE" for r in x) - sum(r["opname"] == "CACHE" for r in d))
     d = [r for r in d if r["opname"] != "CACHE"]
     x = [r for r in x if r["opname"] != "CACHE"]
     if len(d) != len(x):
@@ -327,6 +332,7 @@ def op_stdcmp(c):
             miss(nm, "-", {"dis": getattr(dis, nm), "xdis": getattr(S, nm)})
     for cr in to_close:
         cr.close()
+    out["extra_cache_instructions"] = EXTRA_CACHE[0]
     return out
 
 
